@@ -857,6 +857,16 @@ async fn exec(ctx: &mut Ctx, line: &str) -> OpResult {
             t.end().map_err(bad)?;
             Ok("Q".to_string())
         }
+        "SEQ" => {
+            // SEQ <op> ;; <op> ;; ... : the ops one after the other in this task, without letting the
+            // runtime settle in between (a client that acts on a response at once).
+            let rest = line.splitn(2, ' ').nth(1).unwrap_or("");
+            let mut out = Vec::new();
+            for part in rest.split(" ;; ") {
+                out.push(exec_boxed(ctx, part.to_string()).await?);
+            }
+            Ok(format!("SEQ {}", out.join(" ;; ")))
+        }
         // The push-mode ops do not exist outside push mode (they are unknown ops there).
         "MODE" if ctx.push.is_some() => {
             let mode = t.next().map_err(bad)?;
